@@ -472,6 +472,11 @@ def r12(ctx):
         fn = fb.fn(name)
         ctx.touch(fn)
         vp = fn.params[0]['decl']
+        # the flag local that checkValueRange fills through its out-parameter (whatever it is called)
+        nk = fn.outarg('NumberDataType::checkValueRange', 1)
+        negnames = set([nk]) if nk else set()
+        if not negnames:
+            raise AnalysisBroken('C05.R12: %s does not obtain the sign flag from checkValueRange any more' % name)
         for x, v in sorted(fn.nodes.items()):
             if v.get('ck') != 'IntegralCast' or not v.get('sg') or v.get('w') != 32 or v.get('sw') != 32 or v.get('ssg'):
                 continue
@@ -480,7 +485,7 @@ def r12(ctx):
             n += 1
             atoms = set((a[0], a[1]) for a in fn.atoms(x))
             full = ('(this.m_bitCount == #32)', True) in atoms
-            neg = ('negative', True) in atoms or any(k.endswith('negative') and p for k, p in atoms)
+            neg = any((nm, True) in atoms for nm in negnames)
             narrow = ('(this.m_bitCount == #32)', False) in atoms
             ok = neg or narrow
             ctx.ob('C05.R12', fn, x, ok, 'raw value as signed int in %s' % name.split('::')[-1],
@@ -489,7 +494,51 @@ def r12(ctx):
         raise AnalysisBroken('C05.R12: only %d conversions of the raw value found' % n)
 
 
+def r13(ctx):
+    ctx.rule('C05.R13', 'only the replacement pattern decodes to null: in NumberDataType::readFromRawValue the null output '
+             '("null" / NULL_VALUE) is decided on the raw pattern alone - it is not reachable behind a store that scales the '
+             'decoded value (val *= / val /= / a reassignment), so a finite raw value that leaves the float range through the '
+             'divisor ends in an error, not in a null that looks like "no value"', minimum=2)
+    fb = ctx.fb
+    fn = fb.fn('ebusd::NumberDataType::readFromRawValue')
+    ctx.touch(fn)
+    nulls = [x for x, v in sorted(fn.nodes.items()) if v['k'] == 'StringLiteral' and (v.get('str') == 'null' or v.get('mac') == 'NULL_VALUE')]
+    if len(nulls) < 2:
+        raise AnalysisBroken('C05.R13: the null outputs of readFromRawValue were not recognised')
+    scal = [nid for nid, d, rhs, op, lhs in fn.assignments() if op in ('*=', '/=', '+=', '-=', '=') and lhs is not None and
+            fn.nodes[fn.strip(lhs, casts=True)].get('rk') == 'local' and
+            (fn.nodes[fn.strip(lhs, casts=True)].get('t') or '') in ('float', 'double')]
+    if not scal:
+        raise AnalysisBroken('C05.R13: the scaling of the decoded float value was not recognised')
+    for x in nulls:
+        frm = [s_ for s_ in scal if fn.reaches_point(fn.pos(s_)[0], fn.pos(x), set(), start_idx=fn.pos(s_)[1] + 1)]
+        ctx.ob('C05.R13', fn, x, not frm, 'null output %s' % fn.key(x),
+               'not reachable behind a scaling store: %s%s' % (not frm, '' if not frm else ' (behind line %d)' % fn.line_of(frm[0])))
+
+
+def r14(ctx):
+    ctx.rule('C05.R14', 'a listed raw value decodes to its entry, never to null: in ValueListDataField::readSymbols the lookup of '
+             'the raw value in the value list is made for every output format - every path to a null output ("null" / '
+             'NULL_VALUE) passes m_values.find() of the raw value read - because the null decision compares against '
+             'getReplacement(), which is a dummy 0 for the types without replacement value (bits, U1L, HCD...) and would turn '
+             'their listed 0 into null', minimum=2)
+    fb = ctx.fb
+    fn = fb.fn('ebusd::ValueListDataField::readSymbols')
+    ctx.touch(fn)
+    raw = fn.outarg('DataType::readRawValue', 3)
+    finds = [c for c in fn.calls('find') if 'map<' in (fn.nodes[c].get('callee') or '') and
+             [fn.key(a) for a in fn.nodes[c].get('args', [])][-1:] == [raw]]
+    nulls = [x for x, v in sorted(fn.nodes.items()) if v['k'] == 'StringLiteral' and (v.get('str') == 'null' or v.get('mac') == 'NULL_VALUE')]
+    if raw is None or len(nulls) < 2:
+        raise AnalysisBroken('C05.R14: raw value / null outputs of ValueListDataField::readSymbols not recognised')
+    for x in nulls:
+        ok = bool(finds) and not fn.reaches_point(fn.entry, fn.pos(x), set(finds))
+        ctx.ob('C05.R14', fn, x, ok, 'null output %s' % fn.key(x), 'every path to it looks the raw value up in the list: %s' % ok)
+
+
 def run(ctx):
+    r14(ctx)
+    r13(ctx)
     r12(ctx)
     r11(ctx)
     r6(ctx)
